@@ -780,7 +780,19 @@ func (P *Prog) unknownErrorShape(fn *ssa.Function) []string {
 	spec.keep = func(f *ssa.Function) bool {
 		return !inModule(funcPkgPath(f)) || (f.Name() == "String" && f.Signature.Recv() != nil)
 	}
+	dtypeF := structField(R.ZogIssue, "Dtype")
 	spec.cond = func(iff *ssa.If) (string, string, string) {
+		// `zerr.Dtype == ""`: the only condition under which the callback's own issue may be given a type
+		if bo, isB := cv(iff.Cond).(*ssa.BinOp); isB && (bo.Op == token.EQL || bo.Op == token.NEQ) && dtypeF != nil {
+			for _, side := range [][2]ssa.Value{{bo.X, bo.Y}, {bo.Y, bo.X}} {
+				if _, f := loadOfField(cv(side[0])); f != nil && sameField(f, dtypeF) && isEmptyString(cv(side[1])) {
+					if bo.Op == token.EQL {
+						return "DTYPE-EMPTY", "T", "F"
+					}
+					return "DTYPE-EMPTY", "F", "T"
+				}
+			}
+		}
 		ex, ok := cv(iff.Cond).(*ssa.Extract)
 		if ok && ex.Index == 1 && assertOfErr(ex) != nil {
 			return "IS-ISSUE", "T", "F"
@@ -799,6 +811,8 @@ func (P *Prog) unknownErrorShape(fn *ssa.Function) []string {
 		}
 		_, f := fieldVar(cv(st.Addr))
 		switch {
+		case f != nil && dtypeF != nil && sameField(f, dtypeF):
+			return []pathItem{{kind: "DTYPE", in: in}}
 		case f != nil && sameField(f, errF):
 			if cv(st.Val) == errP {
 				return []pathItem{{kind: "ERR", val: "param", in: in}}
@@ -833,8 +847,13 @@ func (P *Prog) unknownErrorShape(fn *ssa.Function) []string {
 			continue
 		}
 		is, lastErr, lastPath := "", "", ""
+		dtypeEmpty, dtypeWritten := "", false
 		for _, it := range p.items {
 			switch it.kind {
+			case "DTYPE-EMPTY":
+				dtypeEmpty = it.val
+			case "DTYPE":
+				dtypeWritten = true
 			case "IS-ISSUE":
 				is = it.val
 			case "ERR":
@@ -853,6 +872,17 @@ func (P *Prog) unknownErrorShape(fn *ssa.Function) []string {
 			}
 			if lastErr != "" || lastPath != "" {
 				problems = append(problems, "the callback's own issue has its Err or Path rewritten  [path: "+p.String()+"]")
+			}
+			// an issue built outside a schema (zhttp, zjson) learns the type of the schema it ends up in; one that
+			// already has a type keeps it
+			if dtypeWritten && dtypeEmpty != "T" {
+				problems = append(problems, "the callback's own issue has its type overwritten although it already had one  [path: "+p.String()+"]")
+			}
+			if dtypeEmpty == "" {
+				problems = append(problems, "the callback's own issue is passed on without asking whether it has a type: an issue built outside a schema stays without one  [path: "+p.String()+"]")
+			}
+			if dtypeEmpty == "T" && !dtypeWritten {
+				problems = append(problems, "an issue that arrives without a type is not given the type of the schema it is reported at  [path: "+p.String()+"]")
 			}
 		default:
 			nF++
